@@ -16,6 +16,7 @@ import time
 import traceback
 
 VERIF = os.path.dirname(os.path.dirname(os.path.abspath(__file__)))
+OUT = os.environ.get('VT_OUT') or VERIF       # evidence/ and replays/ go here (selftest redirects it)
 
 
 def reexec_with_hashseed():
@@ -78,7 +79,7 @@ def merge(results):
 
 
 def write_replay(prop, case, violations, kind='case'):
-    d = os.path.join(VERIF, 'replays', prop)
+    d = os.path.join(OUT, 'replays', prop)
     os.makedirs(d, exist_ok=True)
     blob = json.dumps(case, sort_keys=True, default=str)
     p = os.path.join(d, hashlib.sha1(blob.encode()).hexdigest()[:12] + '.json')
@@ -90,7 +91,7 @@ def write_replay(prop, case, violations, kind='case'):
 
 
 def write_evidence(prop, tier, seed, spec, agg, wall, nviol, exhaustive=False):
-    os.makedirs(os.path.join(VERIF, 'evidence'), exist_ok=True)
+    os.makedirs(os.path.join(OUT, 'evidence'), exist_ok=True)
     cov = {
         'evaluations': agg['evaluations'],
         'distinct_nontrivial': len(agg['nontrivial']),
@@ -107,7 +108,7 @@ def write_evidence(prop, tier, seed, spec, agg, wall, nviol, exhaustive=False):
         cov[k] = v if not isinstance(v, list) else v[:8]
     ev = {'property_id': prop, 'tier': tier, 'seed': seed, 'level': 'exploration', 'coverage': cov,
           'assumptions': list(spec.assumptions), 'wall_s': round(wall, 2), 'violations': nviol}
-    p = os.path.join(VERIF, 'evidence', f'{prop}.json')
+    p = os.path.join(OUT, 'evidence', f'{prop}.json')
     with open(p, 'w') as f:
         json.dump(ev, f, indent=1, default=str)
     return p
